@@ -122,12 +122,17 @@ PROPS["C10"] = dict(
 )
 PROPS["C11"] = dict(
     title="Partial and complete parsers agree",
-    level_text="Relational Kani harnesses on the same symbolic input, both directions plus prefix re-parse.",
+    category="other",
+    level_text="BOUNDED ONLY (never counted as proved): relational Kani contract harnesses on the same symbolic input - complete Ok(v) "
+               "<=> partial Ok((v, len)), and partial Ok((v, n)) => complete(prefix n) == Ok(v) - for all byte strings up to the stated "
+               "length, for integers, the float tokenizer (also under six digit-separator formats) and the special-value matcher. "
+               "The parsers are macros over trait iterators outside Verus' subset, so no unbounded obligation exists for this property.",
     assumptions=[],
 )
 PROPS["C12"] = dict(
     title="Number-format syntax flags accept exactly the documented grammar",
-    level_text="The float tokenizer is compared with a reference grammar written from the flag documentation, for an "
+    category="other",
+    level_text="BOUNDED ONLY (never counted as proved): the float tokenizer is compared with a reference grammar written from the flag documentation, for an "
                "instantiated list of flag combinations (FORMAT is a const generic) on all strings over the number "
                "alphabet up to a stated length: same accept/reject, consumed count, mantissa/exponent value and digit slices.",
     assumptions=["bounded: instantiated format list and input length; integer-parser flags (leading zeros, base prefix) not covered yet"],
